@@ -466,3 +466,37 @@ def attr_increments(fa, attr: str, by: int = 1) -> Tuple[List[ast.stmt], List[as
                     cur = fa.sym.ev(ast.Attribute(value=t.value, attr=attr, ctx=ast.Load()), at)
                     (incs if fa.sym.ev(s.value, at) == cur + Poly.const(by) else others).append(s)
     return incs, others
+
+
+# ------------------------------------------------------------- reference implementations
+
+def reference(fa, src: str):
+    """FuncAnalysis of a reference implementation (source text kept with the rule) placed in the same module and class as
+    fa's function: both are normalised by the same evaluator, so spelling, temporaries, statement-vs-expression conditionals,
+    augmented assignments and branch orientation do not matter - only the value ids do."""
+    import textwrap
+    from sa.model import FuncInfo
+    from sa.analysis import FuncAnalysis as _FA
+    node = ast.parse(textwrap.dedent(src)).body[0]
+    node.name = node.name + "__reference"
+    return _FA(fa.an, FuncInfo(fa.f.module, node, fa.f.cls))
+
+
+def value_under(fa, expr: ast.AST, at: int, facts_src=()) -> str:
+    """Value id of expr at CFG node `at`, conditional values collapsed under assumptions written in source syntax over the parameters."""
+    facts = [fa.sym.cmp(ast.parse(t, mode="eval").body, fa.cfg.entry.id) for t in facts_src]
+    old = fa.sym.decide
+    fa.sym.decide = (lambda c: decide_by_facts(c, facts)) if facts else None
+    try:
+        return fa.sym.canon(expr, at)
+    finally:
+        fa.sym.decide = old
+
+
+def stored_attr_under(fa, attr: str, facts_src=()) -> Optional[str]:
+    """Value id of the single, unconditional `self.<attr> = value` store of the function under the given assumptions (None if there is not exactly one such store)."""
+    st = [s for s in all_stmts(fa) if isinstance(s, ast.Assign) and len(s.targets) == 1 and isinstance(s.targets[0], ast.Attribute) and s.targets[0].attr == attr
+          and isinstance(s.targets[0].value, ast.Name) and s.targets[0].value.id == fa.f.params[0]]
+    if len(st) != 1 or fa.syntactic_guards(st[0]):
+        return None
+    return value_under(fa, st[0].value, fa.node_of(st[0]).id, facts_src)
